@@ -105,7 +105,7 @@ impl FeatureRangeFn {
                     #[doc=#doc_inner]
                     #[inline]
                     #vis fn #ident_range_fn(start: Self, end: Self) -> #ident_iter_struct {
-                        use ::core::iter::Iterator;
+                        use ::core::iter::Iterator as _;
                         #ident_iter_struct {
                             inner: ((start as #repr)..=(end as #repr)).map(|x| unsafe { ::core::mem::transmute(x) }),
                         }
@@ -117,10 +117,9 @@ impl FeatureRangeFn {
                         let start_idx = (start as #repr).wrapping_sub(Self::#ident_min as #repr) as #repr_unsigned as usize;
                         let end_idx = (end as #repr).wrapping_sub(Self::#ident_min as #repr) as #repr_unsigned as usize;
 
-                        use ::core::option::Option::Some;
                         #ident_iter_struct {
-                            fwd: Some(start),
-                            bwd: Some(end),
+                            fwd: ::core::option::Option::Some(start),
+                            bwd: ::core::option::Option::Some(end),
                             len: if start_idx > end_idx {
                                 0
                             } else {
@@ -135,7 +134,7 @@ impl FeatureRangeFn {
                         let start_idx = (start as #repr).wrapping_sub(Self::#ident_min as #repr) as #repr_unsigned as usize;
                         let end_idx = (end as #repr).wrapping_sub(Self::#ident_min as #repr) as #repr_unsigned as usize;
 
-                        use ::core::iter::Iterator;
+                        use ::core::iter::Iterator as _;
                         #ident_iter_struct {
                             inner: Self::#ident_table_enum[if start_idx > end_idx { 0..0 } else { start_idx..end_idx + 1 }].iter().copied(),
                         }
@@ -167,10 +166,9 @@ impl FeatureRangeFn {
                         let start_idx = unsafe { start_idx.assume_init() };
                         let end_idx = unsafe { end_idx.assume_init() };
 
-                        use ::core::option::Option::Some;
                         #ident_iter_struct {
-                            fwd: Some(start),
-                            bwd: Some(end),
+                            fwd: ::core::option::Option::Some(start),
+                            bwd: ::core::option::Option::Some(end),
                             len: if start_idx > end_idx {
                                 0
                             } else {
@@ -201,7 +199,7 @@ impl FeatureRangeFn {
                         let start_idx = unsafe { start_idx.assume_init() };
                         let end_idx = unsafe { end_idx.assume_init() };
 
-                        use ::core::iter::Iterator;
+                        use ::core::iter::Iterator as _;
                         #ident_iter_struct {
                             inner: Self::#ident_table_enum[if start_idx > end_idx { 0..0 } else { start_idx..end_idx + 1 }].iter().copied(),
                         }
